@@ -71,7 +71,7 @@ def gen_scenario(rng):
             if x < 0.5:
                 acts.append(("probe", c, rng.choice(list(PROBES))))
             elif x < 0.7:
-                acts.append(("cmd", c, rng.choice(["lock", "unlock", "cancel-all", "flush", "get-group-ids", "num-cancelled", "zzz", "-h", "pool-size 7", "pool-size abc"])))
+                acts.append(("cmd", c, rng.choice(["lock", "unlock", "cancel-all", "flush", "get-group-ids", "num-cancelled", "zzz", "-h", "pool-size 7", "pool-size abc", "SPAWN", "SPAWN"])))
             elif x < 0.76 and not parked:
                 acts.append(("park", c))
                 parked = True
@@ -453,7 +453,11 @@ class World:
                     if any(o.parked for o in self.clients.values()):
                         self.sit["C19.probe_ok_while_parked"] += 1
             elif kind == "cmd":
-                got = await self.command(cl, act[2])
+                line = act[2]
+                if line == "SPAWN":
+                    line = "apply vf.targets.work" if sc["cls"] == "T" else "start 1"
+                    self.sit["C19.spawn_cmd" + (".locked" if self.pool.is_locked else "")] += 1
+                got = await self.command(cl, line)
                 self.note("cmd", c, act[2], got[:60])
                 if not got and not self.stopped and act[2] != "flush":
                     self.violate("C19.concurrent", f"client {c}: no reply to {act[2]!r}")
